@@ -251,7 +251,7 @@ pub fn search_c06(_rng: &mut Rng, thorough: bool) -> SearchResult {
 pub fn search_c02(rng: &mut Rng, thorough: bool) -> SearchResult {
     let mut r = SearchResult::default();
     let maxres = if thorough { 7 } else { 5 };
-    r.rule = format!("every cell of resolution 0..{} and random cells up to resolution 29: lonlat_to_cell(cell_to_lonlat(c), res c) == c; interior points (convex combinations of the centre with corners / edge points at 1e-2 .. 1e-4 from the boundary, in the planar face frame and in lon/lat) map back to the cell. non-trivial = distinct (cell, point) pairs", maxres);
+    r.rule = format!("every cell of resolution 0..{} and random cells up to resolution 29: lonlat_to_cell(cell_to_lonlat(c), res c) == c; interior points (convex combinations of the centre with corners / edge points at 1e-2 .. 1e-4 from the boundary, in the planar face frame and in lon/lat) map back to the cell; points 30..80 % of the way from the reported centre to points of the reported ring map back to the cell. non-trivial = distinct (cell, point) pairs", maxres);
     let mut check_cell = |id: u64, r: &mut SearchResult, rng: &mut Rng, interior: bool| {
         let res = spec_resolution(id);
         let c = cell_to_lonlat(id).unwrap();
@@ -285,6 +285,30 @@ pub fn search_c02(rng: &mut Rng, thorough: bool) -> SearchResult {
                         }
                     }
                     Err(e) => r.viol("interior", format!("lookup of interior point of {:x} failed: {}", id, e)),
+                }
+            }
+            // points well inside the REPORTED outline (not the planar pentagon): 30..80 % of the way along the great
+            // circle from the reported centre to a point of the reported ring.  This is what ties cell_to_boundary and
+            // cell_to_lonlat to the lookup: a corner reported in the wrong place drags these points out of the cell
+            if c.latitude().abs() < 89.0 {
+                let ring = cell_to_boundary(id, Some(CellToBoundaryOptions { closed_ring: false, segments: Some(3) })).unwrap();
+                let cu = unit(c);
+                for _ in 0..3 {
+                    let q = ring[rng.below(ring.len() as u64) as usize];
+                    let qu = unit(q);
+                    let t = 0.3 + 0.5 * rng.unit();
+                    let v = [cu[0] + t * (qu[0] - cu[0]), cu[1] + t * (qu[1] - cu[1]), cu[2] + t * (qu[2] - cu[2])];
+                    let n = (v[0] * v[0] + v[1] * v[1] + v[2] * v[2]).sqrt();
+                    // back from the authalic unit vector to geodetic lon/lat
+                    let alat = (v[2] / n).asin();
+                    let lat = AuthalicProjection.inverse(Radians::new_unchecked(alat)).get().to_degrees();
+                    let lon = v[1].atan2(v[0]).to_degrees();
+                    r.evaluations += 1;
+                    r.nontrivial += 1;
+                    match lonlat_to_cell(LonLat::new(lon, lat), res) {
+                        Ok(back) if back == id => {}
+                        other => r.viol("interior:reported", format!("the point ({}, {}), {:.0} % of the way from the reported centre of {:x} to the point ({}, {}) of its reported ring, maps to {:x?}", lon, lat, 100.0 * t, id, q.longitude(), q.latitude(), other)),
+                    }
                 }
             }
         }
@@ -322,6 +346,13 @@ pub fn search_c03(rng: &mut Rng, thorough: bool) -> SearchResult {
     // which the extrapolated projection of face 10 placed inside that face's cells; and more points of that kind:
     // within 3 degrees of a face centre, given with a longitude outside the principal range (other ulps)
     pts.push((-202.99679991971345, -26.06904491161763));
+    // exactly on the meridians through face centres, vertices and edge midpoints (-93 + 36 k degrees), where the planar
+    // azimuth is an exact multiple of pi/5 and the projection of a far face sits on a triangle seam
+    for k in -5i32..5 {
+        for lat in [-86.0, -84.0, -82.3, -60.0, -26.6, 0.0, 10.8, 31.7, 52.6, 58.3, 82.3, 84.0, 86.0, 89.0] {
+            pts.push((-93.0 + 36.0 * k as f64, lat));
+        }
+    }
     for k in 0..(if thorough { 600 } else { 120 }) {
         let o = &a5::core::origin::get_origins()[k % 12];
         let (t, p) = (o.axis.theta().get() + (rng.unit() - 0.5) * 0.1, (o.axis.phi().get() + (rng.unit() - 0.5) * 0.1).abs());
